@@ -14,7 +14,7 @@ import (
 // violation found while exploring another property is reported under the monitor's own property.
 // ---------------------------------------------------------------------------------------------
 
-var vfFrameRe = regexp.MustCompile(`(?m)^(github\.com/oauth2-proxy/oauth2-proxy/v7[^\s(]*|main\.[^\s(]*)\(`)
+var vfFrameRe = regexp.MustCompile(`(?m)^(github\.com/oauth2-proxy/oauth2-proxy/v7\S*|main\.\S*)\(`)
 
 // vfPanicSite returns the first repository function on the panicking stack (stable across line shifts).
 func vfPanicSite(stack string) string {
@@ -37,7 +37,11 @@ func vfMonitors(w *vfWorld, b *vfBrowser, rep *vfReplica, r *vfResp) {
 	// M-nopanic (C19)
 	if r.Panic != nil {
 		site := vfPanicSite(r.PanicStack)
-		w.violate("C19", "panic", site, "request handling panicked: %v at %s; request: %s", r.Panic, site, vfTrunc(strings.ReplaceAll(vfReqLine(r), "\r\n", "\\r\\n"), 300))
+		prop := w.panicProp
+		if prop == "" {
+			prop = "C19"
+		}
+		w.violate(prop, "panic", site, "request handling panicked: %v at %s; request: %s", r.Panic, site, vfTrunc(strings.ReplaceAll(vfReqLine(r), "\r\n", "\\r\\n"), 300))
 		return
 	}
 	vfMonitorAttrs(w, rep, r)
